@@ -1036,6 +1036,24 @@ fn str_key(k: u64) -> String {
         _ => format!("키-{}-ключ", k),
     }
 }
+fn box_key(k: u64) -> Box<String> {
+    Box::new(str_key(k))
+}
+#[allow(clippy::borrowed_box)]
+fn borrow_box(k: &Box<String>) -> &String {
+    k
+}
+fn arc_key(k: u64) -> std::sync::Arc<String> {
+    std::sync::Arc::new(str_key(k))
+}
+fn borrow_arc(k: &std::sync::Arc<String>) -> &String {
+    k
+}
+// thin-pointer key types (one machine word) looked up through the pointee
+typed_api!(TBoxS, Cache, CacheBuilder, Box<String>, stretto::DefaultKeyBuilder<Box<String>>, stretto::DefaultKeyBuilder::<Box<String>>::default(), box_key, borrow_box, [], |b: CacheBuilder<Box<String>, Val, stretto::DefaultKeyBuilder<Box<String>>, HCoster, HValidator, HCallback, SeedState>| b.finalize());
+typed_api!(TBoxA, AsyncCache, AsyncCacheBuilder, Box<String>, stretto::DefaultKeyBuilder<Box<String>>, stretto::DefaultKeyBuilder::<Box<String>>::default(), box_key, borrow_box, [async], |b: AsyncCacheBuilder<Box<String>, Val, stretto::DefaultKeyBuilder<Box<String>>, HCoster, HValidator, HCallback, SeedState>| b.finalize(async_spawner));
+typed_api!(TArcS, Cache, CacheBuilder, std::sync::Arc<String>, stretto::DefaultKeyBuilder<std::sync::Arc<String>>, stretto::DefaultKeyBuilder::<std::sync::Arc<String>>::default(), arc_key, borrow_arc, [], |b: CacheBuilder<std::sync::Arc<String>, Val, stretto::DefaultKeyBuilder<std::sync::Arc<String>>, HCoster, HValidator, HCallback, SeedState>| b.finalize());
+typed_api!(TArcA, AsyncCache, AsyncCacheBuilder, std::sync::Arc<String>, stretto::DefaultKeyBuilder<std::sync::Arc<String>>, stretto::DefaultKeyBuilder::<std::sync::Arc<String>>::default(), arc_key, borrow_arc, [async], |b: AsyncCacheBuilder<std::sync::Arc<String>, Val, stretto::DefaultKeyBuilder<std::sync::Arc<String>>, HCoster, HValidator, HCallback, SeedState>| b.finalize(async_spawner));
 typed_api!(TStrS, Cache, CacheBuilder, String, stretto::DefaultKeyBuilder<String>, stretto::DefaultKeyBuilder::<String>::default(), str_key, borrow_str, [], |b: CacheBuilder<String, Val, stretto::DefaultKeyBuilder<String>, HCoster, HValidator, HCallback, SeedState>| b.finalize());
 typed_api!(TStrA, AsyncCache, AsyncCacheBuilder, String, stretto::DefaultKeyBuilder<String>, stretto::DefaultKeyBuilder::<String>::default(), str_key, borrow_str, [async], |b: AsyncCacheBuilder<String, Val, stretto::DefaultKeyBuilder<String>, HCoster, HValidator, HCallback, SeedState>| b.finalize(async_spawner));
 
@@ -1043,7 +1061,7 @@ fn build_typed(cfg: &Cfg, ty: &str, cb: HCallback) -> Result<Box<dyn Api>, Strin
     let s = cfg.flavor == Flavor::Sync;
     LOCAL_EXEC.store(cfg.flavor == Flavor::AsyncLocal, Ordering::SeqCst);
     stretto_sim_rt::local::reset();
-    MASK_CONFLICT.store(ty == "string", Ordering::SeqCst);
+    MASK_CONFLICT.store(matches!(ty, "string" | "boxstr" | "arcstr"), Ordering::SeqCst);
     match (ty, s) {
         ("i8", true) => TI8s::build(cfg, cb),
         ("i8", false) => TI8a::build(cfg, cb),
@@ -1067,6 +1085,10 @@ fn build_typed(cfg: &Cfg, ty: &str, cb: HCallback) -> Result<Box<dyn Api>, Strin
         ("usize", false) => TUsza::build(cfg, cb),
         ("string", true) => TStrS::build(cfg, cb),
         ("string", false) => TStrA::build(cfg, cb),
+        ("boxstr", true) => TBoxS::build(cfg, cb),
+        ("boxstr", false) => TBoxA::build(cfg, cb),
+        ("arcstr", true) => TArcS::build(cfg, cb),
+        ("arcstr", false) => TArcA::build(cfg, cb),
         _ => Err(format!("unknown key type {}", ty)),
     }
 }
@@ -1178,6 +1200,16 @@ pub fn build(cfg: &Cfg) -> Result<Box<dyn Api>, String> {
         }};
     }
     KB_BUILD_KEY_ONLY.store(cfg.kb_build_key_only, Ordering::SeqCst);
+    if cfg.decoy {
+        // a cache of ANOTHER value type is created first (and stays alive): state that depends on
+        // type parameters must not leak from one instantiation of the generic code into another
+        if let Ok(c) = CacheBuilder::<u64, [u64; 40], stretto::TransparentKeyBuilder<u64>>::new_with_key_builder(64, 1_000_000, stretto::TransparentKeyBuilder::default()).set_buffer_size(16).set_cleanup_duration(Duration::from_secs(3600)).set_hasher(SeedState(cfg.hasher_seed ^ 0xf0)).finalize() {
+            let _ = c.insert(DECOY_BASE + 77, [7; 40], 1);
+            let _ = c.wait();
+            rt::rename_workers("foreign-");
+            std::mem::forget(c);
+        }
+    }
     IS_ASYNC.store(cfg.flavor != Flavor::Sync, Ordering::SeqCst);
     PLAIN_REMOVE_OK.store(cfg.buffer_size >= 32, Ordering::SeqCst);
     REMOVE_CALLS.store(0, Ordering::SeqCst);
